@@ -346,6 +346,10 @@ mod keys {
     pub enum K8 { #[serde(rename_all = "SCREAMING_SNAKE_CASE")] Own { inner_field: i32 }, Inherits { inner_field: i32 } }
     #[derive(TS, Serialize)]
     pub enum K10 { r#type { a: i32 }, r#match { b: i32 } }
+    // raw identifiers whose own name starts with `r` (and with `r#`-like letters): only the prefix `r#` goes
+    #[derive(TS, Serialize, Default)]
+    #[serde(rename_all = "PascalCase")]
+    pub struct K11 { pub r#ref: i32, pub r#return: i32, #[ts(type = "string")] pub r#raw_ref: i32, pub rr_plain: i32 }
     #[derive(TS, Serialize, Default)]
     #[allow(non_camel_case_types)]
     pub struct r#struct { pub a: i32 }
@@ -407,6 +411,7 @@ fn binding_keys() -> Value {
         one("K4", &keys::K4::default(), id, keys::K4::inline()),
         one("K6", &keys::K6::default(), id, keys::K6::inline()),
         one("K9", &keys::K9::default(), id, keys::K9::inline()),
+        one("K11", &keys::K11::default(), id, keys::K11::inline()),
     ];
     // externally tagged enum: { "variant_name": { fields } }: compare the outer key and the inner keys of each variant
     for (v, k) in [(keys::K5::FirstVariant { r#type: 0, inner_field: 0 }, 0usize), (keys::K5::SecondOne { r#match: 0 }, 1usize)] {
@@ -647,6 +652,11 @@ mod flat {
     #[derive(TS)] pub struct OnePlus { pub k: i32, #[ts(flatten)] pub a: EA }
     #[derive(TS)] pub struct Two { #[ts(flatten)] pub a: EA, #[ts(flatten)] pub b: EB }
     #[derive(TS)] pub struct Nested { #[ts(flatten)] pub inner: Two }
+    // known finding D18: the scan for the outer pair of parentheses also counts parentheses inside documentation
+    #[derive(TS)] pub enum DA { A1 { /// see (note
+        x: i32 }, A2 { y: i32 } }
+    #[derive(TS)] pub struct DTwo { #[ts(flatten)] pub a: DA, #[ts(flatten)] pub b: EB }
+    #[derive(TS)] pub struct DNested { #[ts(flatten)] pub inner: DTwo }
 }
 fn balanced(s: &str) -> bool {
     let mut st: Vec<char> = vec![];
@@ -683,6 +693,11 @@ fn flatten_shapes() -> Value {
         if !ok { agree = false; }
         out.push(json!({"case": what, "binding": got, "expected": want.unwrap_or_else(|| "brackets balanced".to_string()), "agree": ok, "matches": ok}));
     }
+    // inputs listed in known_findings.json (replayed on every run; `matches` says whether the finding still reproduces, `agree` is
+    // not affected: a listed finding is printed as KNOWN-FINDING, it is not raised again)
+    let (got, want) = (flat::DNested::inline(), flat::DTwo::inline());
+    out.push(json!({"case": "an unbalanced parenthesis inside a field doc of a doubly flattened enum does not change the brackets of the type", "binding": got, "expected": want,
+                    "agree": true, "matches": got == want, "listed_in_known_findings": true}));
     json!({"cases": out, "agree": agree})
 }
 
